@@ -20,6 +20,8 @@ global size_of usize == 8;
 //@@ include prelude/core_types.rs
 //@@ include prelude/socket_standins.rs
 
+//@ item src/lib.rs :: enum SocketType
+//@ end
 //@ item src/lib.rs :: struct SocketOptions
 //@ end
 //@ item src/codec/framed.rs :: struct FramedIo
@@ -144,6 +146,13 @@ impl ReqSocket {
 }
 
 impl ReqSocketBackend {
+//@ item src/req.rs :: impl SocketBackend for ReqSocketBackend / fn socket_type
+//@ name ReqSocketBackend::socket_type
+//@ inherent
+//@ ret r
+//@ spec
+//@|        ensures r is REQ,
+//@ end
 // C09/C10: a new peer's write half is stored under, and enters the rotation with, the SAME identity
 //@ item src/req.rs :: impl MultiPeerBackend for ReqSocketBackend / fn peer_connected
 //@ name ReqSocketBackend::peer_connected
@@ -176,6 +185,14 @@ impl ReqSocketBackend {
 //@ end
 
 impl RepSocketBackend {
+// C01: the READY a socket emits names ITS OWN type
+//@ item src/rep.rs :: impl SocketBackend for RepSocketBackend / fn socket_type
+//@ name RepSocketBackend::socket_type
+//@ inherent
+//@ ret r
+//@ spec
+//@|        ensures r is REP,
+//@ end
     // stand-in for `SocketBackend::monitor(&self) -> &Mutex<..>` (shared borrow of interior-mutable data -> &mut, D7)
     fn monitor(&mut self) -> (r: &mut Mutex<Option<mpsc::Sender<SocketEvent>>>)
         ensures *r == old(self).socket_monitor, final(self).socket_monitor == *final(r),
